@@ -508,7 +508,7 @@ func (c *EvalCtx) localByName(name string) *V {
 				if p == nil {
 					return nil
 				}
-				return c.st.load(c.st.derefLoc(p))
+				return c.run.freeVarContent(c.st, fv, p)
 			}
 		}
 		return nil
@@ -747,6 +747,10 @@ func (c *EvalCtx) evalCall(e *Expr) *V {
 			k = "callfn:" + strings.TrimPrefix(e.Args[0].Str, "fn:")
 		}
 		return vInt(sSel(st.comp("ncall", 1, "Int"), eng.strID(k)), types.Typ[types.Int])
+	case "received":
+		// received(ch): number of values successfully received from channel ch by this activation tree
+		argc(1)
+		return vInt(sSel(st.comp("nrecv", 1, "Int"), c.intOf(e.Args[0])), types.Typ[types.Int])
 	case "cbfree":
 		// no lock declared callback_free is held
 		argc(0)
@@ -768,6 +772,16 @@ func (c *EvalCtx) evalCall(e *Expr) *V {
 			}
 		}
 		return vBool(sAnd(cs...))
+	case "ctxErr":
+		argc(1)
+		{
+			a := c.eval(e.Args[0])
+			if a.K != KIface {
+				c.fail("ctxErr expects a context")
+			}
+			eng.declare("(declare-fun ctxerr (Int) Int)")
+			return &V{K: KIface, T: types.Universe.Lookup("error").Type(), Tag: eng.typeIDByName("errtype:context"), Val: "(ctxerr " + a.Val + ")"}
+		}
 	case "tagof":
 		argc(1)
 		a := c.eval(e.Args[0])
